@@ -1,5 +1,5 @@
 """Property -> rules registry.  Rules are added here as they are built; a property without rules is not claimed."""
-from .rules import determinism
+from .rules import determinism, panics
 
 
 def _thorough_only(rule):
@@ -12,6 +12,16 @@ def _thorough_only(rule):
 
 
 PROPS = {
+    "C18": {
+        "rules": [panics.rule_panic(("A", "B")), panics.rule_gact],
+        "text": "Panic-site closure: every panic-capable construct reachable in the resolved whole-workspace call graph from the "
+                "parser, the type checker and every later stage entry point is enumerated and must be an audited row; zone A "
+                "(everything reachable from parse_module/parse_term/Program::check, including all 399 grammar actions) accepts "
+                "only locally discharged rows. Decides 'never panics on user input' for all inputs at once; termination is not decided.",
+        "assumptions": ["lalrpop's generated state machine and third-party crates do not panic",
+                        "LOOKUP rows: checked programs are well-scoped (name lookups succeed)",
+                        "stack overflow and allocation failure are outside the property ('within stack limits')"],
+    },
     "C17": {
         "rules": [determinism.rule_hash, determinism.rule_static, determinism.rule_ambient],
         "text": "Static decision of the three ways the pipeline could become non-deterministic: (R-HASH) every iteration over a "
